@@ -50,7 +50,9 @@ META = dict(
         'content found in the curve objects is handed to the model with every call',
         'a Check call that raises: only the exception is compared (verdicts already written for '
         'earlier curve groups are not modelled)',
-        'exceptions raised inside the solvers are outside the model',
+        'exceptions raised inside the solvers are outside the MODEL (no model line for such a run); on a batch '
+        'with every known-curve r, s in [1, n-1] they are reported as a C18 VIOLATION with the batch as replay '
+        '(solver_raise_violation), outside that domain as a note (extra.c02s.oracle_raised)',
     ])
 
 DLOG = 'DISCRETE_LOG'
@@ -90,6 +92,7 @@ class World:
     self.regs = {}          # factory string -> register name
     self.batch = Batch('ecdsachk.check')
     self.oracle_raised = []
+    self.solver_violations = []   # solver raised on a batch inside C18's domain (solver_raise_violation)
     self.stats = {}
 
   # --- kinds
@@ -236,7 +239,7 @@ class Recorder:
         else:
           ans = rec.policy(kind, args, lambda: real(*real_args))
       except Exception as e:  # noqa
-        rec.events.append(('raise', kind, args, repr(e)))
+        rec.events.append(('raise', kind, args, repr(e), raise_origin(e)))
         raise
       lst = list(ans)
       rec.events.append(('call', kind, args, [int(x) for x in lst]))
@@ -399,9 +402,14 @@ def run_check(w, name, specs, policy, tag, extra_pred=None, cold=False):
   st['solver_calls'] += sum(len(i) for g in groups for i in g['issuers'])
   out = dict(verdicts=verdicts, ret=ret, groups=groups, err=err, order=order)
   if oracle_raised:
-    # the solver itself raised: outside the model; recorded for the C18 report
-    w.oracle_raised.append(dict(check=name, tag=tag, exc=oracle_raised[0][3],
-                                args=fw.trunc(repr(oracle_raised[0][2]), 300)))
+    # the solver itself raised: outside the MODEL (no model line), but not outside the PROPERTY: on a
+    # batch inside C18's domain it is a violation with the batch as replay (review-2 M3)
+    v = solver_raise_violation(w, specs, arts, oracle_raised, err, name, 'ecdsachk.check', line, tag)
+    if v is not None:
+      w.solver_violations.append(v)
+    else:
+      w.oracle_raised.append(dict(check=name, tag=tag, exc=oracle_raised[0][3],
+                                  args=fw.trunc(repr(oracle_raised[0][2]), 300)))
     return out
 
   def pred(specs=specs, verdicts=verdicts, groups=groups, err=err, order=order, ret=ret,
@@ -414,6 +422,64 @@ def run_check(w, name, specs, policy, tag, extra_pred=None, cold=False):
               pred=pred, always=True,
               info=dict(check=name, n_sigs=len(specs), curves=order))
   return out
+
+
+def raise_origin(e):
+  """file:line:function of the innermost frame of the traceback of `e` (where it was raised)."""
+  tb, last = e.__traceback__, None
+  while tb is not None:
+    last, tb = tb, tb.tb_next
+  if last is None:
+    return '?'
+  co = last.tb_frame.f_code
+  return '%s:%d:%s' % (co.co_filename, last.tb_lineno, co.co_name)
+
+
+def solver_raise_violation(w, specs, arts, raised, err, entry, op, line, tag):
+  """C18 on the implementation (review-2 M3).  `raised`: the 'raise' events of a Recorder — an exception
+  that left HiddenNumberProblem / HiddenNumberProblemForCurve / Cr50U2fGuesses (the real solver or a
+  substituted one) during `entry` (a check name or 'paranoid.CheckAllECDSASigs'), `err` the exception that
+  left `entry` itself (None: the check caught it and returned).  Such a run has no model line (the solver
+  ANSWER is the model's oracle), but the property speaks about the real entry point: when every
+  known-curve signature of the batch has r, s in [1, n-1] (C18's domain: `well_formed`; any hash length,
+  any issuer key, any curve id) and the exception reached the caller, it is a VIOLATION whatever raised
+  it (lll.py / fpylll included: they are an oracle of the MODEL only; the innermost frame is named in
+  the record).  Returns the violation record (batch as serialized protobufs = replay) or None (outside
+  the domain, or the entry point returned: the caller keeps its note)."""
+  if not raised or err is None or not well_formed(w, specs):
+    return None
+  ev = raised[0]
+  origin = ev[4] if len(ev) > 4 else '?'
+  inside = 'the LLL oracle (lll.py / fpylll)' if ('fpylll' in origin or '/lll.py:' in origin) else 'the solver code'
+  kinds = {'H': 'HiddenNumberProblem', 'G': 'HiddenNumberProblemForCurve', 'C': 'Cr50U2fGuesses'}
+  return dict(
+      op=op, line=line, impl='err ' + type(err).__name__,
+      model='bool (C18: no exception on a well-formed batch)',
+      what=('%s raised %r on a WELL-FORMED batch (%d signatures, every known-curve r, s in [1, n-1]): the '
+            'exception %s left %s, raised inside %s at %s' % (
+                entry, err, len(specs), ev[3], kinds.get(ev[1], ev[1]), inside, origin)),
+      info=dict(kind='solver-raise', entry=entry, tag=tag, solver=kinds.get(ev[1], ev[1]),
+                solver_args=fw.trunc(repr(ev[2]), 2000), origin=origin,
+                batch=[a.SerializeToString().hex() for a in arts]))
+
+
+def replay_solver_raise(doc):
+  """`./check Cxx --replay` of a solver-raise record: the stored protobufs through the stored real entry
+  point (fresh curve caches / tables as far as the harness controls them); exit 1 iff it raises again."""
+  info = doc.get('info') or {}
+  from paranoid_crypto.lib import paranoid  # noqa
+  from paranoid_crypto import paranoid_pb2 as pb
+  arts = [pb.ECDSASignature.FromString(bytes.fromhex(h)) for h in info.get('batch', [])]
+  entry = info.get('entry')
+  f = paranoid.CheckAllECDSASigs if entry == 'paranoid.CheckAllECDSASigs' else paranoid.GetECDSAAllChecks()[entry].Check
+  try:
+    r = f(arts)
+  except Exception as e:  # noqa
+    print('replay: %s raised %r on the stored batch of %d signatures' % (entry, e, len(arts)))
+    print('VIOLATION property=%s %s raised on a well-formed batch' % (doc.get('property'), entry))
+    return 1
+  print('replay: %s returned %r on the stored batch of %d signatures (not reproduced on this tree)' % (entry, r, len(arts)))
+  return 0
 
 
 def well_formed(w, specs):
@@ -1046,6 +1112,7 @@ def correspondence_sigs(rep, rng, tier):
     t1 = time.time()
     rep.absorb(w.batch, w.batch.run())
     rep.absorb(w.windows_batch, w.windows_batch.run())
+    rep.violations.extend(w.solver_violations)
     rep.extra.setdefault('c02s', {}).update(
         impl_wall_s=round(t1 - t0, 1), model_wall_s=round(time.time() - t1, 1),
         check_calls=len(w.batch.items), oracle_raised=w.oracle_raised[:20], scenario_stats=w.stats,
